@@ -1738,3 +1738,81 @@ package ir
 //@   assigns caches
 //@   ensures result != nil && fresh(result) && result.ElemType == elemType && result.Src == src && len(result.Indices) == len(indices) && forall(k, 0, len(indices), result.Indices[k] == indices[k])
 //@   ensures gepPost(result.Typ, elemType, vtype(src), indices, old(gwalkV(elemType, indices, len(indices))))
+
+//@ # ---------------------------------------------------------------- C15 (successors) ---
+//@ # Succs() lists the branch targets of the terminator, each target field once, in declaration order.
+//@ # The cached list, when present, must list the same targets (object invariant, stated as a
+//@ # precondition: it is what a slot write through Operands() breaks - the recorded known finding).
+//@ macro blk(v value.Value) *Block = cast(v, "*Block")
+//@ func (*TermRet).Succs
+//@   props C15 C14
+//@   assigns nothing
+//@   ensures len(result) == 0
+//@ func (*TermUnreachable).Succs
+//@   props C15 C14
+//@   assigns nothing
+//@   ensures len(result) == 0
+//@ func (*TermResume).Succs
+//@   props C15 C14
+//@   assigns nothing
+//@   ensures len(result) == 0
+//@ func (*TermBr).Succs
+//@   props C15 C14
+//@   requires term != nil && typeis(term.Target, "*Block")
+//@   requires term.Successors == nil || (len(term.Successors) == 1 && term.Successors[0] == blk(term.Target))
+//@   assigns caches
+//@   ensures len(result) == 1 && result[0] == blk(term.Target)
+//@ func (*TermCatchRet).Succs
+//@   props C15 C14
+//@   requires term != nil && typeis(term.Target, "*Block")
+//@   requires term.Successors == nil || (len(term.Successors) == 1 && term.Successors[0] == blk(term.Target))
+//@   assigns caches
+//@   ensures len(result) == 1 && result[0] == blk(term.Target)
+//@ func (*TermCondBr).Succs
+//@   props C15 C14
+//@   requires term != nil && typeis(term.TargetTrue, "*Block") && typeis(term.TargetFalse, "*Block")
+//@   requires term.Successors == nil || (len(term.Successors) == 2 && term.Successors[0] == blk(term.TargetTrue) && term.Successors[1] == blk(term.TargetFalse))
+//@   assigns caches
+//@   ensures len(result) == 2 && result[0] == blk(term.TargetTrue) && result[1] == blk(term.TargetFalse)
+//@ func (*TermInvoke).Succs
+//@   props C15 C14
+//@   requires term != nil && typeis(term.NormalRetTarget, "*Block") && typeis(term.ExceptionRetTarget, "*Block")
+//@   requires term.Successors == nil || (len(term.Successors) == 2 && term.Successors[0] == blk(term.NormalRetTarget) && term.Successors[1] == blk(term.ExceptionRetTarget))
+//@   assigns caches
+//@   ensures len(result) == 2 && result[0] == blk(term.NormalRetTarget) && result[1] == blk(term.ExceptionRetTarget)
+//@ func (*TermCleanupRet).Succs
+//@   props C15 C14
+//@   requires term != nil
+//@   requires term.Successors == nil || (typeis(term.UnwindTarget, "*Block") && len(term.Successors) == 1 && term.Successors[0] == blk(term.UnwindTarget)) || (!typeis(term.UnwindTarget, "*Block") && len(term.Successors) == 0)
+//@   assigns caches
+//@   ensures typeis(term.UnwindTarget, "*Block") ==> len(result) == 1 && result[0] == blk(term.UnwindTarget)
+//@   ensures !typeis(term.UnwindTarget, "*Block") ==> len(result) == 0
+//@ func (*TermSwitch).Succs
+//@   props C15 C14
+//@   requires term != nil && typeis(term.TargetDefault, "*Block") && forall(k, 0, len(term.Cases), term.Cases[k] != nil && typeis(term.Cases[k].Target, "*Block"))
+//@   requires term.Successors == nil || (len(term.Successors) == 1 + len(term.Cases) && term.Successors[0] == blk(term.TargetDefault) && forall(k, 0, len(term.Cases), term.Successors[1 + k] == blk(term.Cases[k].Target)))
+//@   assigns caches
+//@   ensures len(result) == 1 + len(term.Cases) && result[0] == blk(term.TargetDefault) && forall(k, 0, len(term.Cases), result[1 + k] == blk(term.Cases[k].Target))
+//@   loop 0: invariant 0 <= range_i && range_i <= len(term.Cases) && len(succs) == 1 + range_i && fresh(succs) && succs[0] == blk(term.TargetDefault) && forall(k, 0, range_i, succs[1 + k] == blk(term.Cases[k].Target))
+//@ func (*TermIndirectBr).Succs
+//@   props C15 C14
+//@   requires term != nil && forall(k, 0, len(term.ValidTargets), typeis(term.ValidTargets[k], "*Block"))
+//@   requires term.Successors == nil || (len(term.Successors) == len(term.ValidTargets) && forall(k, 0, len(term.ValidTargets), term.Successors[k] == blk(term.ValidTargets[k])))
+//@   assigns caches
+//@   ensures len(result) == len(term.ValidTargets) && forall(k, 0, len(term.ValidTargets), result[k] == blk(term.ValidTargets[k]))
+//@   loop 0: invariant 0 <= range_i && range_i <= len(term.ValidTargets) && len(term.Successors) == range_i && forall(k, 0, range_i, term.Successors[k] == blk(term.ValidTargets[k]))
+//@ func (*TermCallBr).Succs
+//@   props C15 C14
+//@   requires term != nil && typeis(term.NormalRetTarget, "*Block") && forall(k, 0, len(term.OtherRetTargets), typeis(term.OtherRetTargets[k], "*Block"))
+//@   requires term.Successors == nil || (len(term.Successors) == 1 + len(term.OtherRetTargets) && term.Successors[0] == blk(term.NormalRetTarget) && forall(k, 0, len(term.OtherRetTargets), term.Successors[1 + k] == blk(term.OtherRetTargets[k])))
+//@   assigns caches
+//@   ensures len(result) == 1 + len(term.OtherRetTargets) && result[0] == blk(term.NormalRetTarget) && forall(k, 0, len(term.OtherRetTargets), result[1 + k] == blk(term.OtherRetTargets[k]))
+//@   loop 0: invariant 0 <= range_i && range_i <= len(term.OtherRetTargets) && len(term.Successors) == 1 + range_i && term.Successors[0] == blk(term.NormalRetTarget) && forall(k, 0, range_i, term.Successors[1 + k] == blk(term.OtherRetTargets[k]))
+//@ func (*TermCatchSwitch).Succs
+//@   props C15 C14
+//@   requires term != nil && forall(k, 0, len(term.Handlers), typeis(term.Handlers[k], "*Block"))
+//@   requires term.Successors == nil || (len(term.Successors) == len(term.Handlers) + ite(typeis(term.DefaultUnwindTarget, "*Block"), 1, 0) && forall(k, 0, len(term.Handlers), term.Successors[k] == blk(term.Handlers[k])) && (typeis(term.DefaultUnwindTarget, "*Block") ==> term.Successors[len(term.Handlers)] == blk(term.DefaultUnwindTarget)))
+//@   assigns caches
+//@   ensures len(result) == len(term.Handlers) + ite(typeis(term.DefaultUnwindTarget, "*Block"), 1, 0) && forall(k, 0, len(term.Handlers), result[k] == blk(term.Handlers[k]))
+//@   ensures typeis(term.DefaultUnwindTarget, "*Block") ==> result[len(term.Handlers)] == blk(term.DefaultUnwindTarget)
+//@   loop 0: invariant 0 <= range_i && range_i <= len(term.Handlers) && len(term.Successors) == range_i && forall(k, 0, range_i, term.Successors[k] == blk(term.Handlers[k]))
